@@ -148,6 +148,33 @@ pub fn run(rep: &Report) {
         }
     });
     rep.scope_done(json!({"scope": format!("S({n},{d}) x every object node x {{_sd, ...}} x 7 values x first/last x 5 strategies x 2 formats + controls"), "trees": ts.len()}));
+    // single-path chains of depth 4..20 (every object / array pattern for depth <= 8, three patterns beyond) with the
+    // reserved name at the very bottom: refused; the same chain without it: issued
+    let mut deep: Vec<(Value, bool)> = vec![];
+    for k in 4..=20usize {
+        let pats: Vec<u64> = if k <= 8 { (0..(1u64 << k)).collect() } else { vec![0, u64::MAX, 0xAAAA_AAAA_AAAA_AAAA] };
+        for pat in pats {
+            let base = chain(k, pat);
+            deep.push((base.clone(), false));
+            for name in names {
+                let mut t = base.clone();
+                super::c07::plant_at_bottom(&mut t, name);
+                deep.push((t, true));
+            }
+        }
+    }
+    par_for(rep, deep.len(), |i, l| {
+        let (t, planted) = &deep[i];
+        for s in [Strat::NoSd, Strat::Top, Strat::All] {
+            for fmt in fmts {
+                one(t, &s, &Cfg { fmt, ..Cfg::CHEAP }, *planted, l);
+                if *planted {
+                    l.nontrivial += 1;
+                }
+            }
+        }
+    });
+    rep.scope_done(json!({"scope": "single-path chains of depth 4..20 with _sd / ... planted at the bottom (refused) and without (issued) x {NoSD, Top, All} x 2 formats", "chains": deep.len()}));
     let u = &ts[ts.len() / 2];
     let ops = object_paths(u);
     rep.sample(json!({"claims_planted": plant(u, ops.last().unwrap(), "...", &json!("x"), false), "strategy": "AllLevels", "expect": "Err"}));
